@@ -3,8 +3,10 @@
    empty directory - same results, same rotation flags, same family files; the foreign files are never touched.
 
    - foreign name: the family test of the model rejects it (ForeignModel.num_member c n = false): it is not listed as a
-     numbered file, neither plain nor as an archive, and it is not the current file.  This is weaker than any condition
-     on the shape of the name (num_member_shape, foreign_no_prefix) and it is necessary: near_miss_is_member.
+     numbered file, neither plain nor as an archive, and it is not the current file.  Since the repair of the number
+     filter ("r" and one or more digits, nothing else) this is exactly "the name does not follow the pattern
+     <fixed>_r<digits>[.restart-NNNN][.suffix][.gz] and is not the rCURRENT file" (MemberPattern.num_member_iff); before
+     it, the filter accepted "r", a digit and anything, and a_r1x.log was a member (near_miss_not_member).
    - numbers_foreign_ignored: no cleanup, every criterion, every history OStart c :: ops ++ [OStop] of basic operations
      (snapshots included: a snapshot shows the foreign entries in addition, strip_obs removes them).
    - numbers_stream_foreign: numbers_stream carries over.
@@ -418,10 +420,12 @@ Qed.
 Print Assumptions numbers_stream_foreign.
 
 (* ------------------------------------------------------------------ which names are foreign *)
-(* a member other than the current file has the shape  <fixed>_ r <digit> <one more byte> ... :
-   names of another shape are foreign, in particular every name that does not start with the fixed name part *)
+(* a member other than the current file has the shape  <fixed>_ r <one or more digits> <rest>  (the rest: the restart
+   part, the suffix, ".gz"; MemberPattern.num_member_iff has the exact shape): names of another shape are foreign, in particular every
+   name that does not start with the fixed name part, and every name with anything but digits between "r" and the
+   first dot *)
 Theorem num_member_shape c n : num_member c n = true ->
-  n = cname c \/ exists d x y, is_digit d = true /\ n = under (fixed0 c) ++ r_char :: d :: x :: y.
+  n = cname c \/ exists ds y, ds <> [] /\ all_digits ds = true /\ n = under (fixed0 c) ++ r_char :: ds ++ y.
 Proof.
   unfold num_member. intros H. apply orb_true_iff in H. destruct H as [H|H]; [|left; apply beq_eq; exact H].
   right. apply orb_true_iff in H. destruct H as [H|H]; eapply qf_num_shape; exact H.
@@ -430,7 +434,7 @@ Qed.
 Corollary foreign_no_prefix c n : is_prefix (fixed0 c) n = false -> num_member c n = false.
 Proof.
   intros Hp. destruct (num_member c n) eqn:E; [|reflexivity]. exfalso.
-  apply num_member_shape in E. destruct E as [->|[d [x [y [_ ->]]]]].
+  apply num_member_shape in E. destruct E as [->|[ds [y [_ [_ ->]]]]].
   - rewrite cname_shape, is_prefix_under in Hp. discriminate.
   - rewrite is_prefix_under in Hp. discriminate.
 Qed.
@@ -444,12 +448,15 @@ Definition ex_c : config :=
      c_symlink := false; c_bg := false; c_async := false; c_start := None |}.
 
 (* near misses of the family a_r<number>.log / a_rCURRENT.log: another suffix behind or instead of the suffix, no
-   digit, too few bytes in the infix ("r1": the number filter wants "r", a digit and at least one more byte), another
-   fixed part, no suffix, an archive of the current file, the fixed part alone *)
+   digit, another fixed part, no suffix, an archive of the current file, the fixed part alone - and the names that the
+   number filter of the code took for numbered files before its repair ("r", a digit, anything): a letter behind the
+   number, a word behind the number, a time-stamp infix *)
 Definition ex_foreign : list (bytes * bytes) :=
   [ (bs "a_r00001.log.bak", bs "w"); (bs "a_rx.log", bs "x"); (bs "b.log", bs "y"); (bs "a_r00001.txt", bs "z");
-    (bs "a_r1.log", bs "u"); (bs "ax_r00001.log", bs "v"); (bs "a_r00001", bs "t"); (bs "a_rCURRENT.log.gz", bs "s");
-    (bs "a.log", bs "q") ].
+    (bs "ax_r00001.log", bs "v"); (bs "a_r00001", bs "t"); (bs "a_rCURRENT.log.gz", bs "s");
+    (bs "a.log", bs "q");
+    (bs "a_r1x.log", bs "1"); (bs "a_r1backup.log", bs "2"); (bs "a_r00001x.log", bs "3");
+    (bs "a_r2024-02-29_23-59-58.log", bs "4") ].
 
 (* three rotations: "abcd" is larger than 3, the trigger, "ghij" is larger than 3 *)
 Definition ex_ops : list op :=
@@ -486,8 +493,11 @@ Example foreign_instance_dir :
       (bs "a_r00001.log", 0%N, bs "ef");
       (bs "a_r00001.log.bak", 0%N, bs "w");
       (bs "a_r00001.txt", 0%N, bs "z");
+      (bs "a_r00001x.log", 0%N, bs "3");
       (bs "a_r00002.log", 0%N, bs "ghij");
-      (bs "a_r1.log", 0%N, bs "u");
+      (bs "a_r1backup.log", 0%N, bs "2");
+      (bs "a_r1x.log", 0%N, bs "1");
+      (bs "a_r2024-02-29_23-59-58.log", 0%N, bs "4");
       (bs "a_rCURRENT.log", 0%N, bs "k");
       (bs "a_rCURRENT.log.gz", 0%N, bs "s");
       (bs "a_rx.log", 0%N, bs "x");
@@ -505,23 +515,37 @@ Example foreign_instance_obs :
   = [ObsRes 0 false; ObsRes 0 false; ObsRes 0 true; ObsRes 0 false; ObsRes 0 false; ObsRes 0 true; ObsRes 0 false].
 Proof. vm_compute. reflexivity. Qed.
 
-(* The family test is wider than "r and five digits".  The number filter accepts every infix that starts with "r" and a
-   digit and has at least three bytes: "a_r1x.log" is a member of the family, although no writer ever produces this name.
-   It cannot be read as a number and counts as index 0: the numbering of a writer that finds it starts at 1.  The
-   hypothesis of the theorem therefore has to be the family test of the model (num_member), not "the name is none of
-   rname c i, gz_name (rname c i), cname c". *)
-Example near_miss_is_member :
-  num_member ex_c (bs "a_r1x.log") = true
-  /\ (forall i, bs "a_r1x.log" <> rname ex_c i) /\ bs "a_r1x.log" <> cname ex_c
+(* BEFORE THE REPAIR of the number filter (InfixFilter::Numbrs: "r", a digit and at least one more byte, whatever it is)
+   the family test was wider than "r and a number": "a_r1x.log" was a member of the family, although no writer ever
+   produces this name.  It could not be read as a number and counted as index 0: the numbering of a writer that found it
+   started at 1 (the former counterexample near_miss_is_member: rotated files r00001, r00002, r00003), and a cleanup
+   counted, compressed and deleted it.
+   NOW the filter wants "r" and one or more digits and nothing else: these names are foreign (num_member rejects them),
+   the run with such a file in the directory is the run without it, the file stays what it was. *)
+Example near_miss_not_member :
+  num_member ex_c (bs "a_r1x.log") = false
+  /\ num_member ex_c (bs "a_r1backup.log") = false
+  /\ num_member ex_c (bs "a_r00001x.log") = false
+  /\ num_member ex_c (bs "a_r2024-02-29_23-59-58.log") = false
+  /\ num_member ex_c (bs "a_r7x.log.gz") = false
   /\ ex_snap (fst (run (sys0f 0 0 [(bs "a_r1x.log", bs "w")]) (OStart ex_c :: ex_ops ++ [OStop])))
-     = [ (bs "a_r00001.log", 0%N, bs "abcd"); (bs "a_r00002.log", 0%N, bs "ef"); (bs "a_r00003.log", 0%N, bs "ghij");
-         (bs "a_r1x.log", 0%N, bs "w"); (bs "a_rCURRENT.log", 0%N, bs "k") ].
-Proof.
-  split; [vm_compute; reflexivity|]. split; [|split; [vm_compute; discriminate | vm_compute; reflexivity]].
-  intros i E. rewrite rname_shape in E. apply (f_equal (fun s => nth 4 s 0%N)) in E.
-  change (under (fixed0 ex_c)) with (bs "a_") in E. cbn [app nth bs] in E.
-  pose proof (digs_cons (N.of_nat i)) as [a [b [r [Ed Ha]]]]. rewrite Ed in E. cbn [nth] in E.
-  pose proof (digs_all (N.of_nat i)) as Hall. rewrite Ed in Hall. cbn [all_digits] in Hall.
-  apply andb_true_iff in Hall. destruct Hall as [_ Hall]. apply andb_true_iff in Hall. destruct Hall as [Hb _].
-  vm_compute in E. subst b. vm_compute in Hb. discriminate.
-Qed.
+     = [ (bs "a_r00000.log", 0%N, bs "abcd"); (bs "a_r00001.log", 0%N, bs "ef"); (bs "a_r00002.log", 0%N, bs "ghij");
+         (bs "a_r1x.log", 0%N, bs "w"); (bs "a_rCURRENT.log", 0%N, bs "k") ]
+  /\ List.map (strip_obs [bs "a_r1x.log"]) (snd (run (sys0f 0 0 [(bs "a_r1x.log", bs "w")]) (OStart ex_c :: ex_ops ++ [OStop])))
+     = snd (run (sys0 0 0) (OStart ex_c :: ex_ops ++ [OStop])).
+Proof. vm_compute. repeat split; reflexivity. Qed.
+
+(* What is "not foreign although no writer of this configuration wrote it": every name that does follow the pattern.
+   The repaired filter accepts a number of any length: "a_r1.log" (one digit; the old filter wanted three bytes and
+   rejected it), "a_r000000000007.log", a stranger's "a_r00005.log" or "a_rCURRENT.log", archives and restart siblings of
+   such names.  They are taken for the logger's own: here a_r1.log counts as index 1, the numbering goes on at 2. *)
+Example short_number_is_member :
+  num_member ex_c (bs "a_r1.log") = true
+  /\ num_member ex_c (bs "a_r000000000007.log") = true
+  /\ num_member ex_c (bs "a_r1.log.gz") = true
+  /\ num_member ex_c (bs "a_r1.restart-0000.log") = true
+  /\ num_member ex_c (bs "a_rCURRENT.log") = true
+  /\ ex_snap (fst (run (sys0f 0 0 [(bs "a_r1.log", bs "w")]) (OStart ex_c :: ex_ops ++ [OStop])))
+     = [ (bs "a_r00002.log", 0%N, bs "abcd"); (bs "a_r00003.log", 0%N, bs "ef"); (bs "a_r00004.log", 0%N, bs "ghij");
+         (bs "a_r1.log", 0%N, bs "w"); (bs "a_rCURRENT.log", 0%N, bs "k") ].
+Proof. vm_compute. repeat split; reflexivity. Qed.
